@@ -67,23 +67,47 @@ impl ChessMove {
     }
 
     pub fn apply(&self, board: &mut Board) -> Result<(), BoardError> {
+        #[cfg(feature = "verif")]
+        if crate::verif::board_observed() {
+            crate::verif::board_event(crate::verif::BoardEvent::BeforeApply(self, board));
+        }
         let result = match self {
             ChessMove::Standard(m) => m.apply(board),
             ChessMove::PawnPromotion(m) => m.apply(board),
             ChessMove::EnPassant(m) => m.apply(board),
             ChessMove::Castle(m) => m.apply(board),
         };
+        #[cfg(feature = "verif")]
+        if crate::verif::board_observed() {
+            crate::verif::board_event(crate::verif::BoardEvent::AfterApply(
+                self,
+                board,
+                result.is_ok(),
+            ));
+        }
 
         map_ok(result)
     }
 
     pub fn undo(&self, board: &mut Board) -> Result<(), BoardError> {
+        #[cfg(feature = "verif")]
+        if crate::verif::board_observed() {
+            crate::verif::board_event(crate::verif::BoardEvent::BeforeUndo(self, board));
+        }
         let result = match self {
             ChessMove::Standard(m) => m.undo(board),
             ChessMove::PawnPromotion(m) => m.undo(board),
             ChessMove::EnPassant(m) => m.undo(board),
             ChessMove::Castle(m) => m.undo(board),
         };
+        #[cfg(feature = "verif")]
+        if crate::verif::board_observed() {
+            crate::verif::board_event(crate::verif::BoardEvent::AfterUndo(
+                self,
+                board,
+                result.is_ok(),
+            ));
+        }
 
         map_ok(result)
     }
